@@ -137,8 +137,20 @@ def make_jobs(ctx, stride=1, channels=(1, 2, 3), skip_major=(0x16,)):
     for f in pk:
         for ty in ("s16", "s32", "f32", "f64"):
             n = 2731
-            unit = ty in ("f32", "f64")
-            j = Job(f, 2, 8000, n, ty, gen_values(rng, ty, n * 2, 0, unit=unit), None)
+            # small values everywhere, one unique maximum per channel placed late in the call (beyond the first staging buffers)
+            import struct as _st
+            small = [rng.randrange(-1000, 1000) for _ in range(n * 2)]
+            small[2 * rng.randrange(1400, 2000)] = 30000
+            small[2 * rng.randrange(2100, 2700) + 1] = -31000
+            if ty == "s16":
+                vals = [v & 0xFFFF for v in small]
+            elif ty == "s32":
+                vals = [(v << 16) & 0xFFFFFFFF for v in small]
+            elif ty == "f32":
+                vals = [_st.unpack("<I", _st.pack("<f", v / 32768.0))[0] for v in small]
+            else:
+                vals = [_st.unpack("<Q", _st.pack("<d", v / 32768.0))[0] for v in small]
+            j = Job(f, 2, 8000, n, ty, vals, None)
             j.garbage = 0
             jobs.append(j)
     return jobs
